@@ -1,5 +1,7 @@
 import Arimaa.Props.C10
 import Arimaa.Lemmas.RsAgreeStep
+import Arimaa.Lemmas.RsAgreeShow
+import Arimaa.Gen.Bridge.GameState_fmt
 import Arimaa.Gen.Bridge.GameState_take_action
 import Arimaa.Gen.Bridge.PieceBoardState_bits_by_piece_type
 import Arimaa.Gen.Bridge.PieceBoardState_bits_for_piece
@@ -19,7 +21,7 @@ of these functions that alters behaviour breaks an obligation here without any t
 (written by tools/mkrprops.py)
 -/
 namespace Arimaa
-open Gen GameState Arimaa.Gen.Rs Arimaa.Rt Arimaa.Gen.Bridge
+open Gen GameState Arimaa.Gen.Rs Arimaa.Rt Arimaa.Gen.Bridge Spec
 
 theorem C10_value_of_ok {α : Type} {x : Res α} {p : Bool} {v w : α} (h : x = Res.guard p v) (hx : x = .ok w) :
     p = false ∧ w = v := by
@@ -33,12 +35,29 @@ theorem C10_code_agrees :
     (∀ (b : Board) (p : Piece) (p1 : Bool), PieceBoardState_bits_for_piece b p p1 = b.bitsForPiece p p1) ∧
     (∀ (b : Board) (p1 : Bool), PieceBoardState_player_piece_mask b p1 = b.playerPieceMask p1) ∧
     (∀ (b : Board) (p : Piece), PieceBoardState_bits_by_piece_type b p = b.bitsByPieceType p) ∧
-    (∀ (b : Board) (sq : Nat), PieceBoardState_piece_type_at_square b sq = Res.guard (b.pieceTypeAtSquarePanics sq) (b.pieceTypeAtSquare sq)) :=
+    (∀ (b : Board) (sq : Nat), PieceBoardState_piece_type_at_square b sq = Res.guard (b.pieceTypeAtSquarePanics sq) (b.pieceTypeAtSquare sq)) ∧
+    (∀ (s : GameState) (f : List Char), GameState_fmt s f = .ok (f ++ showState s)) :=
   ⟨(by simp only [bridge_GameState_take_action]; exact RsAgree.take_action_eq),
    (by simp only [bridge_PieceBoardState_bits_for_piece]; exact RsAgree.bits_for_piece),
    (by simp only [bridge_PieceBoardState_player_piece_mask]; exact RsAgree.player_piece_mask),
    (by simp only [bridge_PieceBoardState_bits_by_piece_type]; exact RsAgree.bits_by_piece_type),
-   (by simp only [bridge_PieceBoardState_piece_type_at_square]; exact RsAgree.piece_type_at_square)⟩
+   (by simp only [bridge_PieceBoardState_piece_type_at_square]; exact RsAgree.piece_type_at_square),
+   (by simp only [bridge_GameState_fmt]; exact RsAgree.game_state_fmt)⟩
 
+
+/-- **C10 for the code as it is now**: on a well-formed board the regenerated views (`bits_for_piece`,
+`player_piece_mask`, `bits_by_piece_type`, `piece_type_at_square`) all describe the one abstract position -/
+theorem C10_code_views_agree (b : Board) (hw : WF b) (k : Nat) (hk : k < 64) :
+    (∀ p g, bit (PieceBoardState_bits_for_piece b p g) k = (absBoard b k == some ⟨g, toSpec p⟩)) ∧
+    (∀ g, bit (PieceBoardState_player_piece_mask b g) k = ownedBy (absBoard b) g k) ∧
+    (∀ p, bit (PieceBoardState_bits_by_piece_type b p) k = (typeAt b k == some p)) ∧
+    PieceBoardState_piece_type_at_square b k = .ok (typeAt b k) := by
+  obtain ⟨h1, h2, h3, _, h5, _⟩ := C10_views_agree b hw k hk
+  simp only [bridge_PieceBoardState_bits_for_piece, bridge_PieceBoardState_player_piece_mask,
+    bridge_PieceBoardState_bits_by_piece_type, bridge_PieceBoardState_piece_type_at_square,
+    RsAgree.bits_for_piece, RsAgree.player_piece_mask, RsAgree.bits_by_piece_type, RsAgree.piece_type_at_square]
+  refine ⟨h1, h2, h3, ?_⟩
+  have : b.pieceTypeAtSquarePanics k = false := by simp [Board.pieceTypeAtSquarePanics, sqBitPanics]; omega
+  rw [this, h5]; rfl
 
 end Arimaa
